@@ -185,7 +185,7 @@ var rFormattable = &Rule{
 
 var rAssertNil = &Rule{
 	Name: "R-ASSERT-NIL",
-	Doc: "no unchecked assertion on a value that can be the nil interface: a non-comma-ok type assertion x.(T) whose operand is the result of a module function that can return a literal nil (a decoder declining, a lookup finding nothing) panics for exactly those inputs ('interface conversion: interface is nil'), unless the assertion is dominated by x != nil",
+	Doc:  "no unchecked assertion on a value that can be the nil interface: a non-comma-ok type assertion x.(T) whose operand is the result of a module function that can return a literal nil (a decoder declining, a lookup finding nothing) panics for exactly those inputs ('interface conversion: interface is nil'), unless the assertion is dominated by x != nil",
 	Run: func(c *core.Ctx) {
 		p := c.P
 		n := 0
